@@ -66,4 +66,15 @@ theorem Zip2.length_eq {α β : Type} {R : α → β → Prop} : ∀ {xs : List 
   | _, _, .nil => rfl
   | _, _, .cons _ t => by simp [Zip2.length_eq t]
 
+section Examples
+/-- non-vacuity: `[x == 1, conde { y == 2 ; y == 3 }]` reordered to `[conde { y == 3 ; y == 2 }, x == 1]` — a `Reorder`, both
+    tree-only, four paths in all, none running out of fuel -/
+private def pA : FProg := .conj (.atom (.eq (.var 0) (Term.num 1))) (.alt (.atom (.eq (.var 1) (Term.num 2))) (.atom (.eq (.var 1) (Term.num 3))))
+private def pB : FProg := .conj (.alt (.atom (.eq (.var 1) (Term.num 3))) (.atom (.eq (.var 1) (Term.num 2)))) (.atom (.eq (.var 0) (Term.num 1)))
+example : Reorder pA pB := .trans (.conj (.refl _) (.altSwap _ _)) (.conjSwap _ _)
+example : pA.TreeOnly := ⟨trivial, trivial, trivial⟩
+example : (pA.paths ++ pB.paths).map (fun path => match postAllF Order.default (State.empty 2) path with
+    | .ok _ => "ok" | .fail => "fail" | .fuel => "fuel" | .panic _ => "panic") = ["ok", "ok", "ok", "ok"] := by decide
+end Examples
+
 end Pv
